@@ -22,7 +22,7 @@ func runC18(x *mc.X) {
 	primed := x.Choose("primed-by-similar-request", 2) == 1
 	state := mc.Pick(x, "state", c18States)
 	extra := x.Choose("extra-directives", 64)
-	spelling := mc.Pick(x, "spelling", []string{"canonical", "upper", "second-line", "extension-mixed", "after-quoted-backslash"})
+	spelling := mc.Pick(x, "spelling", []string{"canonical", "upper", "second-line", "extension-mixed", "after-quoted-backslash", "after-16-extensions", "after-a-repeated-directive", "after-a-numeral-beyond-int64", "after-an-empty-line"})
 	// the directive governs every request, not only the ones the cache can answer (RFC 9111 §5.2.1.7)
 	kind := mc.Pick(x, "request-kind", []string{"GET", "HEAD", "GET+Range", "POST", "GET (Method left empty)", "GET+If-None-Match"})
 	if kind != "GET" && extra != 0 {
@@ -130,6 +130,20 @@ func runC18(x *mc.X) {
 		req.Header.Add("Cache-Control", oic)
 	case "extension-mixed":
 		req.Header.Set("Cache-Control", cc(append(append([]string{`foo="a,b"`}, ds...), oic, "bar=1")...))
+	case "after-16-extensions":
+		var ext []string
+		for i := 1; i <= 16; i++ {
+			ext = append(ext, fmt.Sprintf("x%d", i))
+		}
+		req.Header.Set("Cache-Control", cc(append(append(ext, ds...), oic)...))
+	case "after-a-repeated-directive":
+		req.Header.Add("Cache-Control", cc(append([]string{"x-rep", "x-rep=1"}, ds...)...))
+		req.Header.Add("Cache-Control", cc("x-rep", oic))
+	case "after-a-numeral-beyond-int64": // saturates (RFC 9111 §1.2.2); what follows still counts
+		req.Header.Set("Cache-Control", cc(append(append([]string{"x-n=99999999999999999999", `min-fresh="00000000000000000000"`}, ds...), oic)...))
+	case "after-an-empty-line":
+		req.Header.Add("Cache-Control", "")
+		req.Header.Add("Cache-Control", cc(append(ds, oic)...))
 	case "after-quoted-backslash": // a quoted-string whose last character is an escaped backslash, and one with an escaped quote
 		req.Header.Set("Cache-Control", cc(append(append([]string{`root="C:\\"`, `q="a\"b"`}, ds...), oic)...))
 	}
